@@ -179,3 +179,24 @@ pub fn regions(f: Func) -> Vec<Region> {
         _ => vec![("pos", |r| r.logu(0.1, 10.0))],
     }
 }
+
+/// Model value and magnitude sums (slot convention) of f applied to an exact operand, with an
+/// explicit majorant rule: `gm(k, g_k)` gives the error scale of the k-th Taylor coefficient.
+pub fn model_point(
+    f: Func,
+    x: &crate::model::Jet<f64>,
+    b: &crate::basis::Basis,
+    gm: &dyn Fn(&[f64]) -> Vec<f64>,
+) -> (Vec<f64>, Vec<f64>, Vec<f64>) {
+    let d = b.max_deg;
+    let mut g = crate::taylor::taylor(f, x.c[0], d + 1);
+    for v in g.iter_mut() {
+        if v.is_nan() {
+            *v = 0.0;
+        }
+    }
+    let m: Vec<f64> = gm(&g);
+    let val = x.compose(&g, b);
+    let mag = x.abs().compose(&m, b);
+    (val.to_slots(b), mag.to_slots(b), g)
+}
